@@ -14,10 +14,12 @@ CHECKS = {
             'expand∘compact and contraction counts) + differential execution of the Lean model against lut.py/misc.py',
             'Proof: expand(compact S) = sorted set S for every list S at the level of ranges (induction); symbol/name/Z inverse laws, official symbols, '
             'both angular-momentum conventions (l<25), electron_shells_start accounting (0..118), file-name round trip for every index name — all by kernel '
-            'evaluation over the complete tables regenerated from the source; contraction_string counts by induction over shells. The text layer '
-            '(regex squeezing, split, strip) is modelled executably and tied by correspondence on all intervals of 1..118, unions of intervals and a '
-            'grammar of malformed strings, not proved.',
-            BASE_NOTE + 'Modelled, not verified: the string processing of expand_elements/compact_elements (ASCII only). The general file-name law '
+            'evaluation over the complete tables regenerated from the source; contraction_string counts by induction over shells. The text layer is '
+            'proved too: expand_compact_text - for every non-empty list S of atomic numbers 1..118, compact_elements produces a string and expand_elements (squeezing of repeated '
+            'separators, removal of white space, comma stripping, its four malformed-pattern tests incl. the chained-range regex, the split at the commas, the expansion of every A-B) '
+            'turns it into exactly the sorted set - over the symbol table regenerated from lut.py (known_Z by kernel evaluation; Lemmas/ElementsText.lean: separators are never adjacent, '
+            'between two dashes there is always a comma). The string functions are tied by correspondence on all intervals of 1..118, unions of intervals and a grammar of malformed strings.',
+            BASE_NOTE + 'The regular expressions of expand_elements are modelled by list functions (tied by correspondence, ASCII only). The general file-name law '
             'has a stated limit (theorem name_file_roundtrip_limit).', '6/C20'),
 }
 
@@ -132,7 +134,7 @@ CHECKS['C14'] = (
     'description variant (own splitlines model incl. all Unicode line boundaries). On the real texts: added lines are marker-initial and before the data, '
     'name/role/version/library version present, reading headed = reading bare for the readable formats, get_basis(header=True/False) agrees. '
     'header_lines_are_marked: splitting the block into lines (str.splitlines, all Unicode line boundaries) gives exactly the header\'s own lines, each behind the marker — no header line can reach a reader unmarked '
-    '(splitlines_commentBlock, by induction over the splitlines model). Partial: textwrap is a parameter; that the readers drop marker-initial lines is checked, not proved.',
+    '(splitlines_commentBlock, by induction over the splitlines model). readBack_headed: prune_lines(text.splitlines(), skipchars) - what every reader starts with - gives the same lines for the headed and the bare text, for every format whose comment marker starts with a character its reader prunes (readback_formats: ten formats incl. gaussian94, nwchem, turbomole; prune characters regenerated from the reader modules), every payload and every header ending with a line feed; the prune_lines model is compared with helpers.prune_lines on headed texts and nasty strings. Partial: textwrap is a parameter; that the header ends with a line feed is checked on every explored text, not proved.',
     BASE_NOTE + 'textwrap, str.splitlines of CPython.', '6/C14')
 
 CHECKS['C04'] = (
